@@ -112,7 +112,7 @@ func runC16(c *Ctx) {
 	// id prefixes: none, strings whose []byte conversion has spare capacity (9 and 17 bytes), a
 	// short one, and a prefix function returning a slice with spare capacity
 	cfgs := []Cfg{{Ext: "footnote"}, {Ext: "gfm+footnote", XHTML: true}, {Ext: "all", AutoID: true, Attr: true},
-		{Ext: "footnote", FnPrefix: "article1-"}, {Ext: "gfm+footnote", FnPrefix: "my-blog-article7-", XHTML: true}, {Ext: "footnote", FnPrefix: "p-", FnPrefixFunc: true}, {Ext: "all", FnPrefix: "d0c-", FnPrefixFunc: true, Unsafe: true}}
+		{Ext: "footnote", FnPrefix: "article1-"}, {Ext: "gfm+footnote", FnPrefix: "my-blog-article7-", XHTML: true}, {Ext: "footnote", FnPrefix: "p-", FnPrefixFunc: true}, {Ext: "all", FnPrefix: "d0c-", FnPrefixFunc: true, Unsafe: true}, {Ext: "footnote", Opts: true}, {Ext: "gfm+footnote", Opts: true, FnPrefix: "my-blog-article7-", XHTML: true}}
 	n := 25000
 	if !c.Quick() {
 		n = 600000
